@@ -173,12 +173,6 @@ Definition c05_spec (c : rcase) : bool :=
 (* ---- C02 oracle: content is requested for exactly the regular files (no Linkname) of B that
         are new or whose identity differs; every path present on both sides with equal identity
         keeps its inode ---- *)
-Definition unchanged_b (d : differ) (LA : list stat) (b : stat) : bool :=
-  match lookup (st_path b) LA with Some a => same_file d a b | None => false end.
-
-Definition reqs_spec (d : differ) (LA LB : list stat) : list bytes :=
-  map st_path (filter (fun b => wants_content b && negb (unchanged_b d LA b)) LB).
-
 Fixpoint paths_eqb (a b : list bytes) : bool :=
   match a, b with
   | [], [] => true
